@@ -211,3 +211,35 @@ def run(res, tier, seed=13):
             n += 1
     res.count("hostile_loads", n)
     res.count("hostile_api_edits", n_api)
+    # requests the library may well refuse, made through its public helpers: macro bundles onto controllers that are NOT exposed
+    # as CVALs (the Sampler's record fields, hidden MetaModule slots), enum controllers handed odd spellings of member names
+    from rv.modules.multictl import MultiCtl
+    n_req = 0
+    for cname in ("volume_fadeout", "vibrato_depth", "vibrato_rate", "vibrato_attack", "vibrato_type"):
+        try:
+            p = api.Project()
+            smp = p.new_module(api.m.Sampler)
+            MultiCtl.macro(p, (smp, cname), (smp, "volume"))
+        except Exception:
+            pass
+        n_req += 1
+    try:
+        p = api.Project()
+        mm = p.new_module(api.m.MetaModule)
+        MultiCtl.macro(p, (mm, "user_defined_40"))
+    except Exception:
+        pass
+    for T, t in sorted(sp.items()):
+        cls = MODULE_CLASSES[t.mtype]
+        for c in t.controllers:
+            if c.kind != "enum":
+                continue
+            members = [n_ for n_, _v in c.members]
+            for name in members[:3]:
+                for spelling in (name.upper(), name.replace("_", " ").title(), name.replace("_", "-"), " " + name + " ", name.capitalize(), name + "s"):
+                    try:
+                        setattr(cls(), c.name, spelling)
+                    except Exception:
+                        pass
+                    n_req += 1
+    res.count("hostile_helper_requests", n_req)
